@@ -441,6 +441,7 @@ func c08ReaderCase(c *fw.Ctx) fw.Outcome {
 					c.Count("hangs_inside_demultiplexer_excluded", 1)
 					continue
 				}
+				c08Poisoned = true
 				return fw.Bad(key, fmt.Sprintf("%x", doc), "%s did not return within 20 s on a %s document (%s, %d bytes); it is executing: %s", rd.name, format, origin, len(doc), where)
 			}
 		} else {
@@ -553,6 +554,11 @@ func c08List(r *fw.Rand) *astisub.Subtitles {
 			s.Styles[st.ID] = st
 		}
 	}
+	if len(styles) > 0 && r.P(1, 8) {
+		// a style that (directly or through another one) names itself as its parent: what ReadFromTTML returns for style="s1" on s1
+		a, b := styles[r.Intn(len(styles))], styles[r.Intn(len(styles))]
+		a.Style, b.Style = b, a
+	}
 	var regions []*astisub.Region
 	for k := 0; k < r.Intn(3); k++ {
 		rg := &astisub.Region{ID: fw.Pick(r, []string{"r0", "r1", "", "x y"}), InlineStyle: c08Attrs(r)}
@@ -647,7 +653,17 @@ func c08WriterCase(c *fw.Ctx) fw.Outcome {
 	s := c08List(fw.NewRand(seed))
 	key := fw.Mix(seed, 0xc08)
 	for _, w := range allWriters {
-		_, err, p := writeBytes(w, s)
+		var err error
+		var p string
+		done := make(chan struct{})
+		go func() { c08WatchedCall(func() { _, err, p = writeBytes(w, s) }); close(done) }()
+		select {
+		case <-done:
+		case <-time.After(20 * time.Second):
+			// the abandoned call keeps a processor busy for ever: after reporting it this worker stops exercising the library
+			c08Poisoned = true
+			return fw.Bad(key, seed, "%s writer did not return within 20 s on a cue list built from the public types (list seed %d); it is executing: %s", w.name, seed, c08WhereIsItStuck())
+		}
 		c.Count("writer_calls", 1)
 		if err != nil {
 			c.Count("writer_errors", 1)
@@ -774,6 +790,9 @@ func c08Scaling(c *fw.Ctx, which int) fw.Outcome {
 
 var c08Digest string
 
+// set once a library call was abandoned in an endless loop (it keeps spinning): the rest of this worker's cases are skipped
+var c08Poisoned bool
+
 func init() {
 	rN := func(tier string) int64 { return tierN(tier, 150000, 3000000) }
 	wN := func(tier string) int64 { return tierN(tier, 50000, 1000000) }
@@ -797,6 +816,10 @@ func init() {
 		},
 		Anchors: []string{"ReadFromSRT", "ReadFromWebVTT", "ReadFromTTML", "ReadFromSSAWithOptions", "ReadFromSTL", "ReadFromTeletext", "Open", "WriteToSRT", "WriteToSSA", "WriteToSTL", "WriteToTTML", "WriteToWebVTT"},
 		Run: func(c *fw.Ctx) fw.Outcome {
+			if c08Poisoned {
+				c.Count("cases_skipped_after_a_hang", 1)
+				return fw.Skip()
+			}
 			switch {
 			case c.Idx < rN(c.Tier):
 				return c08ReaderCase(c)
